@@ -247,6 +247,32 @@ CHECKS = {
              "checker proved sound and run by vm_compute on networks regenerated from the Go sources) + goroutine-leak / "
              "panic scenarios against the real handlers",
    ref="5/C14"),
+ "C16": dict(
+   text="Coq theorems over Models/P2PRecv.v (the receive side of one connection: decryptPipe, decodeBytes, decodePipe's second "
+        "signature check, routing into replies / deliveries, dispatch by type) over symbolic cryptography - a wire frame is either "
+        "Sealed(key, plaintext) or junk; a payload signature is (signing key, signed payload): for EVERY stream of frames (honest, "
+        "altered, truncated, injected, sealed under another key, not a package, without payload, signed by another key or over "
+        "other content, at any positions) and however many frames are still processed after the first reported error, whatever "
+        "reaches a subscriber or the request table was sealed under the session key in a package carrying the peer's signature "
+        "over exactly that content (C16_delivered_is_authentic, C16_reply_is_authentic); each kind of bad frame yields an error "
+        "(C16_bad_frames_rejected); an untampered stream is delivered completely, each message once, in order, to the subscriber "
+        "of its type (C16_each_once, C16_subscriber_of_its_type); everything before the first bad frame is delivered "
+        "(C16_prefix_before_first_bad). Tie: (a) two REAL p2p servers on loopback with a byte-level TCP proxy between them that "
+        "flips a bit at a random position of the post-handshake frame i (body or length header), truncates it (consistently or "
+        "raw), appends an altered copy, injects random frames, or replays it; (b) a raw peer that completes the real handshake, "
+        "holds the session key and sends packets with absent / garbage / other-key / other-content signatures, a swapped payload, "
+        "an unknown type, no payload, a non-package plaintext, an unsealed frame. The subscribers' deliveries (compared "
+        "byte-for-byte with what was sent) are compared with the extracted model on the same symbolic stream (guaranteed "
+        "prefix) and judged: only sent messages, each at most once, right subscriber, complete when untampered, no crash.",
+   note=TB + "Hypotheses built into the frame representation: AES-GCM integrity, BLS unforgeability, secrecy of the session key. "
+        "The code seals every frame of a connection with ONE static nonce: the integrity hypothesis is then not justified by "
+        "AES-GCM's security statement (nonce reuse allows recovery of the authentication key from two frames), and an exact "
+        "replay of a frame is accepted - both are outside the property's quantifier and are recorded in DESIGN.md (F15); the "
+        "replay scenario is run and reported in the evidence, not judged. Package fields other than the payload (sender, request "
+        "nonce, reply flag) are not covered by the payload signature.",
+   technique="Coq proof (symbolic AEAD / signature model, induction over the frame stream with an arbitrary post-error budget) + "
+             "differential correspondence and judging against real endpoints behind a tampering TCP proxy and a key-holding raw peer",
+   ref="5/C16"),
  "C15": dict(
    text="Coq theorems over the Gallina model of writeTo/readFrom (Models/Framing.v) where a connection is an arbitrary list of "
         "chunks: for every list of payloads of 1..2^20 bytes and EVERY chunking of the concatenated frames the reader returns "
@@ -262,7 +288,7 @@ CHECKS = {
 NOT_YET = {
 }
 
-PENDING = ["C01","C02","C03","C04","C05","C06","C07","C08","C10","C11","C13","C15","C16","C17","C18","C19","C20"]
+PENDING = ["C01","C02","C03","C04","C05","C06","C07","C08","C10","C11","C13","C15","C17","C18","C19","C20"]
 
 def main():
     checks = []
